@@ -284,6 +284,20 @@ func runC20(e *emitter, tier string, seed uint64) {
 	for _, en := range []string{"", "gzip", "br"} {
 		run(mk("", "text/html; charset=utf-8", en, "", false, big, false))
 	}
+	// pages that the parse / render round trip makes SHORTER by a chosen number of bytes (each &nbsp; loses 4): also by
+	// exactly the length of the inserted script element, with and without a nonce of various lengths
+	for k := 0; k <= 26; k++ {
+		page := "<html><head><title>n</title></head><body><p>" + strings.Repeat("&nbsp;", k) + "x</p></body></html>"
+		run(mk("", "text/html", []string{"", "gzip", "br"}[k%3], "", false, page, false))
+		nonce := strings.Repeat("n", 3+k%14)
+		run(mk("", "text/html; charset=utf-8", []string{"gzip", "", "br"}[k%3], "script-src 'nonce-"+nonce+"'", false, page, false))
+	}
+	for nl := 1; nl <= 24; nl++ { // 48 + 9 + len(nonce) = 4k has a solution for every fourth length: sweep lengths with the matching k
+		if (57+nl)%4 == 0 {
+			page := "<html><head><title>n</title></head><body><p>" + strings.Repeat("&nbsp;", (57+nl)/4) + "x</p></body></html>"
+			run(mk("", "text/html", "", "script-src 'nonce-"+strings.Repeat("z", nl)+"'", false, page, false))
+		}
+	}
 	base := docs[1]
 	for _, ct := range cts {
 		for _, en := range []string{"", "gzip", "br", "deflate"} {
